@@ -1,6 +1,7 @@
 """bin/check entry point:  check <ID> [--tier quick|thorough] [--replay path]"""
 import argparse
 import importlib
+import os
 import json
 import sys
 import time
@@ -26,7 +27,21 @@ def main(argv=None):
             from vf import lib
 
             core._worker_init()  # every exploring process starts with the decoy prelude; so does the replay
-            msgs = mod.replay(blob["case"])
+            try:
+                msgs = mod.replay(blob["case"])
+            except core.HarnessError:
+                raise
+            except Exception as e:
+                # R7: an exception that comes out of the library on the (valid) calls of the replayed case reproduces the violation
+                tb = e.__traceback__
+                inside = False
+                while tb is not None:
+                    if os.path.abspath(tb.tb_frame.f_code.co_filename).startswith(os.path.join(core.REPO, "openskill")):
+                        inside = True
+                    tb = tb.tb_next
+                if not inside:
+                    raise
+                msgs = [f"the replayed case raises {type(e).__name__}: {e} inside the library"]
             if msgs:
                 print(f"VIOLATION property={pid} replay={a.replay}")
                 for m in msgs:
